@@ -1,67 +1,17 @@
 """C03 — range tests flag by inclusive interval membership, fail before suspect."""
-import itertools
-from fractions import Fraction as Fr
-
-from .. import qc
-from ..qc import Case, table_rule
-from ..scen import data_input, time_input
-from ..specs import GrossRange, ValidRange
-
-
-def gross_range_cases(ck):
-    vals = [0, 1, 2, 3]
-    thorough = ck.tier == 'thorough'
-    for a, b in itertools.product(vals, repeat=2):
-        spans = [None] + list(itertools.product(vals, repeat=2))
-        for ss in spans:
-            for pat in (['p', 'm', 'pm'] if thorough or (a, b) in ((0, 3), (3, 0), (1, 1)) else ['p']):
-                kw = dict(fail_span=(Fr(a), Fr(b)))
-                if ss is not None:
-                    kw['suspect_span'] = [Fr(ss[0]), Fr(ss[1])]
-                yield Case('gross_range_test', [data_input('inp', pat)], kw, n=len(pat), pat={'inp': pat},
-                           meta={'class': 'suspect' if ss else 'fail-only'})
-    # malformed spans
-    for bad in ((0, 1, 2), (0,), 5):
-        yield Case('gross_range_test', [data_input('inp', 'p')], dict(fail_span=bad), n=1, pat={'inp': 'p'}, meta={'class': 'malformed-fail-span'})
-        yield Case('gross_range_test', [data_input('inp', 'p')], dict(fail_span=(0, 3), suspect_span=bad), n=1, pat={'inp': 'p'}, meta={'class': 'malformed-suspect-span'})
-
-
-def valid_range_cases(ck):
-    thorough = ck.tier == 'thorough'
-    bounds = [(1, 3), (3, 1) if False else (2, 2), (None, 3), (1, None), (None, None)]
-    for (lo, hi), si, ei, kind in itertools.product(bounds, (None, True, False), (None, True, False), ('num', 'time')):
-        for pat in (['p', 'pm', 'mp'] if thorough else ['pm']):
-            kw = dict(valid_span=(None if lo is None else Fr(lo), None if hi is None else Fr(hi)))
-            if si is not None:
-                kw['start_inclusive'] = si
-            if ei is not None:
-                kw['end_inclusive'] = ei
-            if kind == 'num':
-                inp = data_input('inp', pat, carrier='ndarray')
-            else:
-                # datetimes: values are symbolic positions on the time line; spans are datetime64 scalars
-                from ..vec import El, Sc, Vec
-                from .. import expr as X
-                cells = [El(('x', 'inp', i), False) if c == 'p' else El(X.NAN, False) for i, c in enumerate(pat)]
-                inp = Vec.fresh(cells, kind='nd', dtype='M8', unit='ns', owner='inp')
-                kw['valid_span'] = tuple(None if v is None else Sc(X.num(v), 'M8', 'ns') for v in kw['valid_span'])
-            c = Case('valid_range_test', [inp], kw, n=len(pat), pat={'inp': pat}, meta={'class': kind})
-            c.spec_kwargs = dict(kw, valid_span=(lo, hi))
-            yield c
+from .. import cases
+from .common import run_tables
 
 
 def run(ck):
     ck.explanation = (
         'Decided: the order-cell table of gross_range_test and valid_range_test (value below / on / between / on / above '
         'every bound, for every weak ordering and either order of the span ends, suspect given or absent, all four '
-        'inclusivity settings, each bound present or absent, numbers and datetimes, missing values) equals the table '
-        'written from the property; rejection of suspect-outside-fail and malformed spans. Derived by abstract '
+        'inclusivity settings, each bound present or absent or equal to zero / the epoch, numbers and datetimes, missing values) '
+        'equals the table written from the property; rejection of suspect-outside-fail and malformed spans. Derived by abstract '
         'interpretation of the function source; no repository code is executed. Not decided: numpy datetime comparison '
         'semantics, float rounding.')
-    for case in gross_range_cases(ck):
-        table_rule(ck, 'C03.gross', case, GrossRange(case), scope='all')
-    for case in valid_range_cases(ck):
-        sc = Case(case.test, case.args, case.spec_kwargs, n=case.n, pat=case.pat)
-        table_rule(ck, 'C03.valid', case, ValidRange(sc), scope='all')
+    run_tables(ck, 'C03.gross', cases.gross_range, scope='all')
+    run_tables(ck, 'C03.valid', cases.valid_range, scope='all')
     ck.floor('C03.gross.table', 50)
     ck.floor('C03.valid.table', 50)
